@@ -200,8 +200,16 @@ def census_check(kb, rep):
         missing = [n for n in exp if n not in names]
         new = [n for n in names if n not in exp]
         if missing:
-            raise Undecided("units under contract on the pinned tree no longer generated (lost anchor / removed production): "
-                            + ", ".join(missing[:8]))
+            # a unit that used to exist is gone: the property is not decided by the remaining units (exit 2), but they are still
+            # run, and a violation among them is still a violation (exit 1 takes precedence).  `exp` maps unit -> properties served;
+            # a unit that served other properties only does not concern this check.
+            mine = [n for n in missing if not isinstance(exp, dict) or rep.pid in exp[n]]
+            if mine:
+                rep.undecided.append("units under contract on the pinned tree no longer generated (lost anchor / removed production): "
+                                     + ", ".join(mine[:8]))
+            other = [n for n in missing if n not in mine]
+            if other:
+                rep.notes.append("units of other properties no longer generated: " + ", ".join(other[:8]))
         if new:
             rep.notes.append("new units not in the committed census: " + ", ".join(new[:8]))
     rep.extra["census_units"] = len(names)
